@@ -63,14 +63,41 @@ class HarnessError(RuntimeError):
 LRS = [1e-3, 5e-3, 1e-2, 5e-2, 0.1]
 
 
-def gen_opt(rng, typ):
-    d = {"type": typ, "lr": rng.choice(LRS)}
+# numeric kinds a hyper-parameter may arrive in (same value in every kind: integers for the integer kinds, dyadic
+# fractions otherwise).  Which parameter accepts which kind was established on the unchanged library + torch:
+# betas must be Python floats (np.float64 is one); momentum / constraint values cannot be 0-d arrays.
+KINDS_ALL = ["int", "float", "f32", "f64", "i64", "arr0", "arr0f32"]
+KINDS_NOARR = ["int", "float", "f32", "f64", "i64"]
+KINDS_PYFLOAT = ["float", "f64"]
+DYADIC_LRS = [0.125, 0.0625, 0.03125, 0.015625]
+
+
+def typed(rng, kinds, frac_values, int_values, p_typed=0.5, plain=None):
+    """a number: with probability 1 - p_typed a plain float from `plain` (or frac_values), otherwise tagged with a kind"""
+    if not rng.chance(p_typed):
+        return rng.choice(plain or frac_values)
+    k = rng.choice(kinds)
+    if k in ("int", "i64"):
+        if not int_values:
+            k = "float"
+        else:
+            return {"num": rng.choice(int_values), "kind": k}
+    return {"num": rng.choice(frac_values), "kind": k}
+
+
+def gen_opt(rng, typ, force_kind=None):
+    if force_kind:
+        lr = {"num": 1 if force_kind in ("int", "i64") else rng.choice(DYADIC_LRS), "kind": force_kind}
+    else:
+        lr = typed(rng, KINDS_ALL, DYADIC_LRS, [1], 0.4, LRS)
+    d = {"type": typ, "lr": lr}
     if typ == "sgd" and rng.chance(0.6):
-        d["momentum"] = rng.choice([0.5, 0.9])
+        d["momentum"] = typed(rng, KINDS_NOARR, [0.5, 0.875], [0], 0.5, [0.5, 0.9])
     if typ == "adamw" and rng.chance(0.4):
-        d["weight_decay"] = rng.choice([0.0, 0.01, 0.1])
+        d["weight_decay"] = typed(rng, KINDS_ALL, [0.125, 0.015625], [0], 0.5, [0.0, 0.01, 0.1])
     if typ == "adam" and rng.chance(0.2):
-        d["betas"] = [0.8, 0.9]
+        k = rng.choice(KINDS_PYFLOAT)
+        d["betas"] = [{"num": 0.75, "kind": k}, {"num": 0.875, "kind": k}] if rng.chance(0.5) else [0.8, 0.9]
     return d
 
 
@@ -78,14 +105,14 @@ def gen_sched(rng, kind):
     if kind == "none":
         return {"type": "none"}
     if kind == "plateau":
-        return {"type": "plateau", "factor": 0.5, "patience": rng.choice([0, 1]), "cooldown": 0,
-                "threshold": rng.choice([1e-3, 0.5])}
+        return {"type": "plateau", "factor": typed(rng, KINDS_ALL, [0.5, 0.25], [], 0.4), "patience": rng.choice([0, 1]), "cooldown": 0,
+                "threshold": typed(rng, KINDS_ALL, [0.5, 0.0009765625], [], 0.4, [1e-3, 0.5])}
     if kind == "exp":
-        return {"type": rng.choice(["exp", "gamma"]), "gamma": rng.choice([0.5, 0.7, 0.9])}
+        return {"type": rng.choice(["exp", "gamma"]), "gamma": typed(rng, KINDS_ALL, [0.5, 0.75, 0.875], [], 0.4, [0.5, 0.7, 0.9])}
     if kind == "cyclic":
         return {"type": "cyclic", "step_size_up": rng.choice([1, 2]), "step_size_down": rng.choice([1, 2, 3])}
     if kind == "linear":
-        return {"type": "linear", "start_factor": 0.5, "total_iters": rng.choice([2, 3])}
+        return {"type": "linear", "start_factor": typed(rng, KINDS_ALL, [0.5, 0.25], [], 0.4), "total_iters": rng.choice([2, 3])}
     raise HarnessError(kind)
 
 
@@ -105,19 +132,23 @@ def gen_cfg(rng, idx, force=None):
     keysets = [["object"], ["object", "probe"], ["object", "probe", "dataset"], ["probe"], ["object", "dataset"]]
     keys = force.get("keys", rng.weighted([(keysets[0], 2), (keysets[1], 5), (keysets[2], 3), (keysets[3], 1), (keysets[4], 1)]))
     base_t = force.get("opt", rng.choice(OPT_TYPES))
-    opt = {k: gen_opt(rng, base_t if rng.chance(0.8) else rng.choice(OPT_TYPES)) for k in keys}
+    opt = {k: gen_opt(rng, base_t if rng.chance(0.8) else rng.choice(OPT_TYPES), force.get("lr_kind")) for k in keys}
     sk = force.get("sched", rng.choice(SCHED_KINDS))
     sched = None
     if sk != "none" or rng.chance(0.3):
         sched = {k: gen_sched(rng, sk if rng.chance(0.8) else rng.choice(SCHED_KINDS)) for k in keys if rng.chance(0.85)}
+    if force.get("lr_kind") and sk != "none":
+        sched = {k: gen_sched(rng, sk) for k in keys}      # every optimizer's lr is changed by its scheduler
     cons = {}
     if rng.chance(0.35):
-        cons["object"] = rng.choice([{"tv_weight_xy": 0.01}, {"apply_fov_mask": True}, {"positivity": False}, {"gaussian_sigma": 1.0}])
+        cons["object"] = rng.choice([{"tv_weight_xy": typed(rng, KINDS_NOARR, [0.015625, 0.0078125], [], 0.5, [0.01])}, {"apply_fov_mask": True},
+                                     {"positivity": False}, {"gaussian_sigma": typed(rng, KINDS_NOARR, [1.5, 0.75], [1], 0.5, [1.0])}])
     if cfg["obj_type"] == "potential" and rng.chance(0.75):
         # torch.clamp passes no gradient at the bound: a potential object starting at 0 with positivity on never moves
         cons["object"] = dict(cons.get("object", {}), positivity=False)
     if rng.chance(0.25):
-        cons["probe"] = rng.choice([{"center_probe": True}, {"orthogonalize_probe": False}, {"tv_weight": 0.01}])
+        cons["probe"] = rng.choice([{"center_probe": True}, {"orthogonalize_probe": False},
+                                    {"tv_weight": typed(rng, KINDS_NOARR, [0.015625], [], 0.5, [0.01])}])
     if "dataset" in keys and (force.get("descan_const") or rng.chance(0.3)):
         cons["dataset"] = rng.choice([{"descan_shifts_constant": True}, {"descan_tv_weight": 0.01}]) \
             if not force.get("descan_const") else {"descan_shifts_constant": True}
@@ -163,7 +194,8 @@ def splits_of(cfg):
 
 def cfg_sig(cfg, split, pinned):
     calls = cfg["calls"]
-    kinds = sorted({(k, v.get("type")) for c in calls for k, v in (c.get("opt") or {}).items()})
+    kinds = sorted({(k, v.get("type"), (v.get("lr") or {}).get("kind") if isinstance(v.get("lr"), dict) else "plain")
+                    for c in calls for k, v in (c.get("opt") or {}).items()})
     scheds = sorted({(k, v.get("type")) for c in calls for k, v in (c.get("sched") or {}).items()})
     total = sum(c["n"] for c in calls)
     before = sum(c["n"] for c in calls[:split[0]]) + split[1]
@@ -444,7 +476,8 @@ def _stateless(cfg, key):
     for c in cfg["calls"]:
         if c.get("opt") and key in c["opt"]:
             last = c["opt"][key]
-    return last is not None and last.get("type") == "sgd" and not last.get("momentum")
+    from .c05_problem import num_of
+    return last is not None and last.get("type") == "sgd" and not num_of(last.get("momentum"))
 
 
 # ---------------------------------------------------------------------------------------
@@ -597,6 +630,12 @@ FORCED = [
     {"opt": "sgd", "sched": "none", "keys": ["object", "dataset"], "shape": "ds-removed", "raw": False, "learn_tilt": False, "auto": False},
     {"opt": "adam", "sched": "exp", "keys": ["object", "probe", "dataset"], "shape": "ds-removed", "raw": False, "learn_tilt": False, "auto": True},
     {"opt": "adamw", "sched": "none", "keys": ["object", "probe"], "shape": "single", "n": 3, "raw": False, "auto": True},
+    # a learning rate given as an integer / NumPy scalar / 0-d array, with a scheduler that changes it:
+    # the recorded LR history mixes kinds (int first, floats afterwards)
+    {"opt": "sgd", "sched": "exp", "keys": ["object", "probe"], "shape": "single", "n": 4, "lr_kind": "int", "store": "zip"},
+    {"opt": "adam", "sched": "linear", "keys": ["object", "probe"], "shape": "single", "n": 3, "lr_kind": "i64", "store": "dir"},
+    {"opt": "adamw", "sched": "cyclic", "keys": ["object"], "shape": "single", "n": 3, "lr_kind": "arr0"},
+    {"opt": "sgd", "sched": "plateau", "keys": ["object", "probe"], "shape": "history", "lr_kind": "f32"},
 ]
 
 
@@ -639,6 +678,9 @@ def run(ctx):
             for c in cfg["calls"]:
                 for k, v in (c.get("opt") or {}).items():
                     ctx.dist[f"opt:{k}:{v.get('type')}"] += 1
+                    for hp in ("lr", "momentum", "weight_decay"):
+                        if hp in v:
+                            ctx.dist[f"numkind:{hp}:{v[hp]['kind'] if isinstance(v[hp], dict) else 'plain-float'}"] += 1
                 for k, v in (c.get("sched") or {}).items():
                     ctx.dist[f"sched:{k}:{v.get('type')}"] += 1
             natural_split = splits[rng.below(len(splits))]
